@@ -79,6 +79,7 @@ class VNet:
         self.fates = None
         self.tap = None  # tap(t, src, dst, data) called for every send (before its fate)
         self.n_sent = 0
+        self.on_endpoint = None  # on_endpoint(transport, protocol): called before any traffic
 
     # -- endpoints ------------------------------------------------------------------
     def create_endpoint(self, protocol_factory, local_addr=None, remote_addr=None, **kw):
@@ -87,6 +88,8 @@ class VNet:
         protocol = protocol_factory()
         tr = VTransport(self, addr, protocol)
         self.transports.append(tr)
+        if self.on_endpoint is not None:
+            self.on_endpoint(tr, protocol)
         protocol.connection_made(tr)
         return tr, protocol
 
